@@ -6,7 +6,7 @@ Usage: lib/run_seeded.py [--thorough] [--extra Cxx,Cyy] [seeded-id ...]"""
 import json, os, subprocess, sys, time, re
 
 VERIF = os.path.dirname(os.path.dirname(os.path.abspath(__file__)))
-REPO = "/repo"
+REPO = os.environ.get("VERIF_REPO", "/repo")  # a scratch worktree of /repo may be given instead
 args = sys.argv[1:]
 tier = "quick"
 extra = []
